@@ -751,6 +751,8 @@ pub struct USeqScenario {
     pub max_tasks: usize,
     pub close: bool,
     pub cancel: bool,
+    /// Breadth-first reachability to closure (see explorer::explore_bfs).
+    pub bfs: bool,
 }
 
 #[derive(Clone, Debug)]
@@ -839,6 +841,7 @@ pub fn run_useq(sc: &USeqScenario) -> Outcome {
     let mut tasks: Vec<UTask> = Vec::new();
     let mut next_who = 1usize;
     let mut closed = false;
+    let mut pruned = false;
     let mut steps = 0;
     while steps < sc.depth && u(|w| w.viol.is_empty()) {
         let mut ops: Vec<(SOp, Cost)> = Vec::new();
@@ -872,7 +875,8 @@ pub fn run_useq(sc: &USeqScenario) -> Outcome {
             }
         }
         ops.push((SOp::Stop, Cost::FREE));
-        let costs: Vec<Cost> = ops.iter().map(|o| o.1).collect();
+        let fresh_step = sc.bfs && explorer::past_root();
+        let costs: Vec<Cost> = ops.iter().map(|o| if sc.bfs { Cost::FREE } else { o.1 }).collect();
         let k = choose(&costs);
         let op = ops[k].0.clone();
         trace!("op {:?}", op);
@@ -975,6 +979,67 @@ pub fn run_useq(sc: &USeqScenario) -> Outcome {
             }
             note_state(h.finish());
         }
+        if fresh_step {
+            if u(|w| w.viol.is_empty()) {
+                // canonical state: pool counters, how many objects are where (per
+                // holder in creation order), every pending call in creation order
+                let mut h = std::collections::hash_map::DefaultHasher::new();
+                pool.verif_snapshot().hash(&mut h);
+                u(|w| {
+                    (w.queued(), w.adding(), w.close_begun, w.close_returned).hash(&mut h);
+                    for (_who, objs) in w.hands.iter() {
+                        if !objs.is_empty() {
+                            objs.len().hash(&mut h);
+                        }
+                    }
+                });
+                for t in &tasks {
+                    (t.woken(), t.is_get(), matches!(t.kind, TaskKind::Get { take: true, .. })).hash(&mut h);
+                }
+                closed.hash(&mut h);
+                let _ = explorer::bfs_visit(h.finish());
+                pruned = true;
+            }
+            break;
+        }
+    }
+    if pruned {
+        for t in tasks.drain(..) {
+            let who = t.who;
+            u(|w| w.seq_actor = Some(who));
+            match t.kind {
+                TaskKind::Get { mut task, .. } => task.cancel(),
+                TaskKind::Add { id, mut task } => {
+                    u(|w| {
+                        if matches!(w.objs[id].loc, ULoc::Adding(_)) {
+                            w.objs[id].loc = ULoc::Back;
+                        }
+                    });
+                    task.cancel();
+                }
+            }
+            u(|w| {
+                w.seq_actor = None;
+                w.end(who);
+            });
+        }
+        let whos: Vec<usize> = u(|w| w.hands.keys().copied().collect());
+        for who in whos {
+            while u_release(who) {}
+        }
+        u(|w| {
+            w.viol.clear();
+            w.pool_dropping = true;
+        });
+        drop(pool);
+        let mut world = U.with(|c| c.borrow_mut().take()).unwrap();
+        let back = std::mem::take(&mut world.back);
+        let hands = std::mem::take(&mut world.hands);
+        drop(world);
+        drop(hands);
+        drop(back);
+        sched::end();
+        return Outcome { obs: 0, violations: vec![] };
     }
     // abandon what is pending
     for t in tasks.drain(..) {
